@@ -46,6 +46,13 @@ def _build():
         T = S.cat("t", 2, pt)
         reg.add(Schema("cat_%s_x_cat_x_cat" % pt, [T, A1, B1], [("cat", 0), ("cat", 1), ("cat", 2)]),
                 configs=[{}], quick=2, thorough=3)
+    # table dimension of every categorical-like type, missing element before valid ones
+    for tname, T in (("catdate", S.cat("t", 2, "first", date=True)), ("catdate_mid", S.cat("t", 2, "mid", date=True)),
+                     ("datetime", S.enum("t", "datetime", 2, missing_first=True)),
+                     ("text", S.enum("t", "text", 2, missing_first=True))):
+        role = "enum" if T.kind == "ENUM" else "cat"
+        reg.add(Schema("%s_x_cat_x_cat" % tname, [T, A1, B1], [(role, 0), ("cat", 1), ("cat", 2)]),
+                configs=[{}], quick=2, thorough=3)
     T = S.cat("t", 2, "first")
     reg.add(Schema("catF_x_cat_x_mr", [T, A1, M], [("cat", 0), ("cat", 1), ("mr", 2)]), configs=[{}], quick=2, thorough=2)
     reg.add(Schema("catF_x_mr_x_cat", [T, M, A1], [("cat", 0), ("mr", 1), ("cat", 2)]), configs=[{}], quick=2, thorough=2)
@@ -101,6 +108,9 @@ def check(space, state):
             if ndim3:
                 tvar = sch.vars[sch.dims[0][1]]
                 cats = getattr(tvar, "cats", None)
+                if cats is None and getattr(tvar, "elements", None) is not None:
+                    cats = ([{"missing": True}] if tvar.has_missing and tvar.missing_first else []) + \
+                        [{"missing": False} for _ in tvar.elements]
                 if cats is not None:
                     raw = [k for k, c in enumerate(cats) if not c.get("missing")][pidx]
                     kind_ += ":3d" + (":missing_table_category_before_partition" if raw != pidx else "")
